@@ -164,15 +164,9 @@ func genProducer(c *cf.Case, r *cf.Rng, prop string) {
 		}
 	case "C02":
 		cfg.Partitioner = "manual"
-		if r.Intn(4) == 0 {
-			cfg.Idempotent = true
-		}
 		maxP = 3
 	case "C04":
 		faultMax = 3
-		if r.Intn(4) == 0 {
-			cfg.Idempotent = true
-		}
 		if r.Intn(6) == 0 {
 			cfg.Sync = true
 		}
@@ -188,9 +182,6 @@ func genProducer(c *cf.Case, r *cf.Rng, prop string) {
 		cfg.Interceptors = r.Range(1, 3)
 		if r.Intn(3) == 0 {
 			cfg.PanicIcpt = r.Range(1, cfg.Interceptors)
-		}
-		if r.Intn(4) == 0 {
-			cfg.Idempotent = true
 		}
 	}
 	if cfg.Idempotent {
